@@ -16,7 +16,10 @@
 // Section D (archive.go): storagearchive.Untar / Unzip over the whole entry-kind x name x
 // strip-components family (replaces the former section C, which only put hostile names on
 // regular entries).  Section E (unicode.go): spellings that differ only in Unicode normalisation
-// form are different keys in every bucket.
+// form are different keys in every bucket.  Section F (gate.go): the bufcas gate — NewFileNode / ParseFileNode /
+// ParseManifest / NewFileSetForBucket / PutFileSetToBucket over the path pools (`--only 3000000+i`).
+// Section G (siblings.go): the sibling gates (module file paths, --path values, buf.yaml / buf.work.yaml
+// paths), oracle only (`--only 4000000+i`).
 package main
 
 import (
@@ -27,6 +30,7 @@ import (
 	"sort"
 	"strconv"
 	"strings"
+	"time"
 
 	"github.com/bufbuild/buf/private/pkg/normalpath"
 	"github.com/bufbuild/buf/private/pkg/storage"
@@ -673,8 +677,18 @@ func main() {
 	if run.Only < 0 || (run.Only >= archOnlyBase && run.Only < unicodeOnlyBase) {
 		sectionD(run, r.Fork(4), tmpRoot)
 	}
-	if run.Only < 0 || run.Only >= unicodeOnlyBase {
+	if run.Only < 0 || (run.Only >= unicodeOnlyBase && run.Only < gateOnlyBase) {
 		sectionE(run, tmpRoot)
+	}
+	if run.Only < 0 || (run.Only >= gateOnlyBase && run.Only < siblingOnlyBase) {
+		t0 := time.Now()
+		sectionF(run, r.Fork(6), tmpRoot)
+		run.Set("sectionF_seconds", int(time.Since(t0).Seconds()+0.5))
+	}
+	if run.Only < 0 || run.Only >= siblingOnlyBase {
+		t0 := time.Now()
+		sectionG(run, tmpRoot)
+		run.Set("sectionG_seconds", int(time.Since(t0).Seconds()+0.5))
 	}
 	run.Finish()
 }
